@@ -25,6 +25,7 @@ import (
 type decoded struct {
 	a, e, z [][]byte
 	ta, tz  any
+	canon   []byte
 }
 
 func (d *decoded) equal(o *decoded) bool {
@@ -41,6 +42,9 @@ func (d *decoded) equal(o *decoded) bool {
 			}
 		}
 		return true
+	}
+	if d.canon != nil && o.canon != nil {
+		return bytes.Equal(d.canon, o.canon)
 	}
 	return eq(d.a, o.a) && eq(d.e, o.e) && eq(d.z, o.z)
 }
@@ -146,6 +150,22 @@ func mkCase[X sigma.Statement, W sigma.Witness, A sigma.Statement, S sigma.State
 		}
 		return v.Verify(xs[which], proof)
 	}
+	enc := func(comp compiler.Name, as []A, es [][]byte, zs []Z) []byte {
+		var b []byte
+		var err error
+		switch comp {
+		case fiatshamir.Name:
+			b, err = serde.MarshalCBOR(&fsWire[A, Z]{A: as[0], E: es[0], Z: zs[0]})
+		case fischlin.Name:
+			b, err = serde.MarshalCBOR(&fischlin.Proof[A, Z]{A: as, E: es, Z: zs})
+		default:
+			b, err = serde.MarshalCBOR(&randfischlin.Proof[A, Z]{A: as, E: es, Z: zs})
+		}
+		if err != nil {
+			return nil
+		}
+		return b
+	}
 	c.decode = func(comp compiler.Name, proof []byte) (d *decoded) {
 		var as []A
 		var es [][]byte
@@ -184,6 +204,8 @@ func mkCase[X sigma.Statement, W sigma.Witness, A sigma.Statement, S sigma.State
 			d.a = append(d.a, ab)
 			d.z = append(d.z, zb)
 		}
+		// canonical re-encoding of the decoded typed values: what "the decoded value" is
+		vh.Safely(func() { d.canon = enc(comp, as, es, zs) })
 		return d
 	}
 	c.sigmaOK = func(which int, d *decoded, i int, e []byte) (ok bool) {
@@ -215,22 +237,6 @@ func mkCase[X sigma.Statement, W sigma.Witness, A sigma.Statement, S sigma.State
 			wv.Z = o.tz.([]Z)[0]
 		}
 		return serde.MarshalCBOR(wv)
-	}
-	enc := func(comp compiler.Name, as []A, es [][]byte, zs []Z) []byte {
-		var b []byte
-		var err error
-		switch comp {
-		case fiatshamir.Name:
-			b, err = serde.MarshalCBOR(&fsWire[A, Z]{A: as[0], E: es[0], Z: zs[0]})
-		case fischlin.Name:
-			b, err = serde.MarshalCBOR(&fischlin.Proof[A, Z]{A: as, E: es, Z: zs})
-		default:
-			b, err = serde.MarshalCBOR(&randfischlin.Proof[A, Z]{A: as, E: es, Z: zs})
-		}
-		if err != nil {
-			return nil
-		}
-		return b
 	}
 	c.withChallenge = func(comp compiler.Name, d *decoded, i int, e []byte) []byte {
 		es := append([][]byte{}, d.e...)
